@@ -444,7 +444,7 @@ Qed.
 
 Lemma inst_feats P c c' : inst P c c' -> forall f, In f (feats c') -> In f (feats c) \/ exists g, In (f, g) P \/ In (g, f) P.
 Proof.
-  induction 1 as [b f | b f g V S HP | l s r l' r' Hl IHl Hr IHr]; intros h Hh.
+  induction 1 as [b f NB | b f g [V HP] | l s r l' r' Hl IHl Hr IHr]; intros h Hh.
   - now left.
   - unfold feats in Hh. simpl in Hh. destruct Hh as [<-|[]]. right. exists f. tauto.
   - rewrite feats_app in *. apply in_app_or in Hh. destruct Hh as [Hh|Hh]; [destruct (IHl _ Hh) | destruct (IHr _ Hh)]; auto;
